@@ -70,13 +70,46 @@ def generate(rng, tier):
         else:
             yield {"fam": "sens", "vals": base, "i": rng.randrange(n), "new": rng.choice(p), "path": rng.choice(paths),
                    "other": [rng.choice([7, 8]) for _ in range(n)]}
+    for _ in range(60 if tier == "quick" else 1500):
+        n = rng.randint(1, 4)
+        base = [rng.choice([1, 0, 2, -1, "a", None]) for _ in range(n)]
+        yield {"fam": "nested", "vals": base, "i": rng.randrange(n), "new": rng.choice([5, 7, "b", None, 2.5]),
+               "other": [rng.choice([7, 8]) for _ in range(n)], "path": rng.choice(["view", "cell", "none"])}
     for i in range(1500 if tier == "quick" else 24000):
         yield {"fam": "history", "seed": rng.randrange(1 << 30), "nsteps": 12 if tier == "quick" or i % 3 else 36}
+
+
+def _nested(spec):
+    """Table([Table({'a': vals}), Table({'c': other})]) — fingerprint, write into the inner column, fingerprint again"""
+    from serif import Vector, Table
+    vals, n = list(spec["vals"]), len(spec["vals"])
+    with warnings.catch_warnings():
+        warnings.simplefilter("ignore")
+        try:
+            outer = Table([Table({"a": list(vals)}), Table({"c": list(spec["other"])})])
+            if not isinstance(outer, Table) or len(outer.cols()) != 2 or not isinstance(outer.cols()[0], Table):
+                return {"skip": "not a table of tables"}
+            ob = outer.fingerprint()
+            inner = outer.cols()[0]
+            i, new = spec["i"], spec["new"]
+            if spec["path"] == "view":
+                inner.a[i] = new
+            elif spec["path"] == "cell":
+                inner[i, "a"] = new
+            got = list(inner.cols()[0])
+            oa = outer.fingerprint()
+            rebuilt = Table([Table({"a": list(got)}), Table({"c": list(spec["other"])})]).fingerprint()
+        except Exception as e:
+            return {"skip": "refused: " + type(e).__name__}
+    return {"fam": "nested", "case": {"hs": hashes(vals), "hs2": hashes(got), "other": hashes(spec["other"])},
+            "impl": {"o_before": ob, "o_after": oa, "o_rebuilt": rebuilt}}
 
 
 def execute(spec):
     if spec["fam"] == "sens":
         return _sens(spec)
+    if spec["fam"] == "nested":
+        return _nested(spec)
     return _history(spec)
 
 
@@ -198,12 +231,16 @@ def _history(spec):
 
 
 def nontrivial(spec, wire):
+    if spec["fam"] == "nested":
+        return wire["case"]["hs"] != wire["case"]["hs2"]
     if spec["fam"] == "sens":
         return wire["case"]["hs"] != wire["case"]["hs2"]
     return wire["impl"]["stale_reads"] >= 1
 
 
 def histogram(spec, wire):
+    if spec["fam"] == "nested":
+        return ["nested:" + spec["path"]]
     if spec["fam"] == "sens":
         return ["sens:" + spec["path"], "sens:hash-changed" if wire["case"]["hs"] != wire["case"]["hs2"] else "sens:hash-equal"]
     out = []
@@ -213,7 +250,7 @@ def histogram(spec, wire):
 
 
 def shrink(spec):
-    if spec["fam"] == "sens":
+    if spec["fam"] in ("sens", "nested"):
         return
     if "steps" not in spec:
         w = _history(spec)
@@ -226,6 +263,9 @@ def shrink(spec):
 
 
 def snippet(spec):
+    if spec["fam"] == "nested":
+        return (f"from serif import Table\nouter = Table([Table({{'a': {spec['vals']!r}}}), Table({{'c': {spec['other']!r}}})])\n"
+                f"f0 = outer.fingerprint(); outer.cols()[0].a[{spec['i']}] = {spec['new']!r}; print(f0, outer.fingerprint())")
     if spec["fam"] == "sens":
         return ("from serif import Vector, Table\n"
                 f"v = Vector({spec['vals']!r}); f0 = v.fingerprint()\n"
